@@ -253,6 +253,52 @@ def deleteObjects (step : σ → Op → σ × Ret) (names : List Name) (confirm 
     ⟨k.1, k.2.1, k.2.2.1, match k.2.2.2 with | some e => .error e | none => .ok .none⟩
   else ⟨s, cache, [], .ok .none⟩
 
+/-! ## the gathered upload tasks under a scheduler (map level)
+
+`upload_objects` gathers one task per file; with `skip_existing` a task makes up to two backend calls (`exists`, then
+`upload_stream` if the answer was `False`), and the calls of different tasks interleave.  `runSchedule` lets a scheduler pick,
+call after call, the task (by object name) that makes its next backend call. -/
+
+inductive Phase
+  | todo        -- nothing asked yet
+  | pending     -- `exists` answered `False`; the upload is still to come
+  | done
+deriving Repr, DecidableEq
+
+structure Task where
+  name : Name
+  data : Bytes
+  phase : Phase
+deriving Repr, DecidableEq
+
+/-- the backend call a task makes next (chunk size left open) -/
+def Task.nextCall (skip : Bool) (t : Task) : Option Op :=
+  match t.phase with
+  | .todo => if skip then some (.exists_ t.name) else some (.uploadStream t.name t.data 1)
+  | .pending => some (.uploadStream t.name t.data 1)
+  | .done => none
+
+/-- the next backend call of a task, at map level -/
+def advance (skip : Bool) (m : Spec) (t : Task) : Spec × Task :=
+  match t.phase with
+  | .todo =>
+    if skip then (if (m t.name).isSome then (m, { t with phase := .done }) else (m, { t with phase := .pending }))
+    else (m.put t.name t.data, { t with phase := .done })
+  | .pending => (m.put t.name t.data, { t with phase := .done })
+  | .done => (m, t)
+
+/-- the scheduler lets the task for object `n` make its next call -/
+def stepTask (skip : Bool) (m : Spec) (ts : List Task) (n : Name) : Spec × List Task :=
+  match ts.find? (fun t => decide (t.name = n)) with
+  | none => (m, ts)
+  | some t => ((advance skip m t).1, ts.map (fun u => if u.name = n then (advance skip m t).2 else u))
+
+def runSchedule (skip : Bool) : Spec → List Task → List Name → Spec × List Task
+  | m, ts, [] => (m, ts)
+  | m, ts, n :: sched => runSchedule skip (stepTask skip m ts n).1 (stepTask skip m ts n).2 sched
+
+def initTasks (l : List (Name × Bytes)) : List Task := l.map (fun e => ⟨e.1, e.2, .todo⟩)
+
 /-! ## the four commands as one type -/
 inductive Cmd
   | upload (cwd : Path) (dirs paths : List Path) (rateLimit : Option Nat) (skipExisting : Bool)
